@@ -109,6 +109,7 @@ static std::string body(const HCase& c) {
 		switch (k.op) {
 		case AllocCache: { if (live(caches).size() >= 4) { done = false; break; } randomx_cache* p = nullptr; bool jit = k.a & 1; API([&] { p = randomx_alloc_cache((randomx_flags)(jit ? RANDOMX_FLAG_JIT : 0)); }); if (!p) { err = "randomx_alloc_cache returned NULL"; break; } caches.push_back({p, -1, jit, true, 0}); break; }
 		case InitCache: { int i = pick(live(caches), k.a); if (i < 0 || objectBusy(true, i)) { done = false; break; } int key = k.b % (int)c.keys.size();
+			if ((k.c & 1) && caches[i].key >= 0 && c.keys.size() >= 5) { static const int rel[5] = {3, 0, 0, 4, 0}; key = rel[caches[i].key]; lab["re-key-to-related-key"]++; }   // steer: re-key to a relative of the current key
 			if (caches[i].key >= 0) lab[caches[i].key == key ? "redundant-reinit-same-key" : "re-key"]++;
 			API([&] { randomx_init_cache(caches[i].p, c.keys[key].data(), c.keys[key].size()); }); if (caches[i].key != key) caches[i].epoch++; caches[i].key = key; break; }
 		case ReleaseCache: { int i = pick(live(caches), k.a); if (i < 0 || objectBusy(true, i)) { done = false; break; }
@@ -188,7 +189,14 @@ static rc::Gen<HCase> genHistory(int secureOnly, int datasetPct) {
 	}, gen::inRange(0, 41), gen::inRange(0, 64), gen::inRange(0, 64), gen::inRange(0, 4));
 	return gen::resize(100, gen::apply([=](std::vector<Cmd> cmds, Bytes k1, Bytes k2, std::vector<Bytes> inputs, int pattern, int reuse, int dsRoll) {
 		HCase c; c.secureOnly = secureOnly;
-		c.keys = {k1, Bytes(), k2}; if (k2.size() <= 60) { c.keys[2].resize(61 + k2.size(), 0x5a); }
+		// key universe: a generated key, the empty key, a key longer than 60 bytes, and *relatives* of the first key (same length, differing
+		// only in the last byte; with an embedded zero byte in front of the difference; a proper prefix / zero-extended version) - keys that
+		// any comparison shortcut (C-string compare, prefix compare, length-only compare) would confuse
+		Bytes a = k1; if (a.size() < 4) a.resize(4 + a.size(), 0x41);
+		if (pattern & 1) a[a.size() / 2] = 0;                       // embedded zero byte
+		Bytes a2 = a; a2.back() ^= 0x01;                             // same length, differs after the zero byte
+		Bytes a3 = a; if (reuse & 1) a3.push_back(0); else a3.pop_back();   // zero-extended / proper prefix
+		c.keys = {a, Bytes(), k2, a2, a3}; if (k2.size() <= 60) { c.keys[2].resize(61 + k2.size(), 0x5a); }
 		c.inputs = inputs;
 		// a fixed prologue makes most histories productive: cache, init, vm
 		c.cmds = {Cmd{AllocCache, 1, 0, 0}, Cmd{InitCache, 0, 0, 0}, Cmd{CreateVm, 0, 1, 0}};
